@@ -96,6 +96,8 @@ pub fn alphabet(thorough: bool) -> Vec<WCall> {
         WCall::Flush,
     ];
     if thorough {
+        a.push(t(NItem::Start(ID_ROOT), WOpt::Width(1)));
+        a.push(t(NItem::Full(ID_N, vec![NItem::Full(ID_K, vec![NItem::Full(ID_L, vec![NItem::Leaf(ID_LB, Val::B(vec![0x3c; 107]))])])]), WOpt::Default));
         a.push(t(NItem::Start(ID_EBML), WOpt::Default));
         a.push(t(NItem::End(ID_EBML), WOpt::Default));
         a.push(t(NItem::Leaf(ID_S, Val::S("x".repeat(127))), WOpt::Default));
